@@ -15,6 +15,14 @@ from .model_entry import ModelEntry
 def _encode(obj):
     # Encode a model object into a bytes string
     d = obj.to_dict()
+    for s in d['statements']['statements']:
+        if s['class'] == 'CompartmentalSystem':
+            # Equal systems may list their compartments in different orders: encode them by name
+            old = s['compartments']
+            comps = sorted(old, key=lambda c: c.get('name', ''))  # Output has no name: first
+            new = {old.index(c): i for i, c in enumerate(comps)}
+            s['compartments'] = comps
+            s['rates'] = sorted((new[u], new[v], rate) for u, v, rate in s['rates'])
     js = json.dumps(d)
     enc = js.encode('utf-8')
     return enc
